@@ -100,7 +100,24 @@ def tokens_witness(prop, failures, repo, verif, workdir, seed, log):
     return {"found": False, "inputs_tried": r["tried"], "search_s": round(time.time() - t0, 1)}
 
 
+def ropebounds_witness(prop, failures, repo, verif, workdir, seed, log):
+    t0 = time.time()
+    try:
+        binary = twin.build(repo, verif, workdir, log)
+    except Exception as e:
+        return {"found": False, "error": str(e)[:600]}
+    r = twin.run(binary, ["search-ropebounds", seed + 1], timeout=60)
+    if r["found"]:
+        log(f"  witness (search-ropebounds, {r['tried']} ranges tried): {r['detail']}")
+        return {"found": True, "kind": r["kind"], "input": r["input"], "detail": r["detail"], "inputs_tried": r["tried"], "search_s": round(time.time() - t0, 1),
+                "replays_on": "real crate built from the checked tree: Rope::get_byte_slice through the public API"}
+    log(f"  witness search: no panic among {r['tried']} extreme ranges")
+    return {"found": False, "inputs_tried": r["tried"], "search_s": round(time.time() - t0, 1)}
+
+
 def mixed_witness(prop, failures, repo, verif, workdir, seed, log):
+    if any("rope_bounds" in f.name for f in failures):
+        return ropebounds_witness(prop, failures, repo, verif, workdir, seed, log)
     if any("helpers_tokens" in f.name for f in failures):
         return tokens_witness(prop, failures, repo, verif, workdir, seed, log)
     if any("replace_helpers" in f.name for f in failures):
@@ -117,7 +134,7 @@ def replay(prop, path, repo, verif, workdir, log):
     if not w.get("found"):
         return None
     binary = twin.build(repo, verif, workdir, log)
-    kind = {"enc": "replay-enc", "lines": "replay-lines", "dec": "replay-dec", "replace": "replay-replace", "eqhash": "replay-eqhash", "wildmap": "replay-wildmap", "tokens": "replay-tokens"}[w["kind"]]
+    kind = {"enc": "replay-enc", "lines": "replay-lines", "dec": "replay-dec", "replace": "replay-replace", "eqhash": "replay-eqhash", "wildmap": "replay-wildmap", "tokens": "replay-tokens", "ropebounds": "replay-ropebounds"}[w["kind"]]
     inp = w["input"]
     if w["kind"] == "dec":
         import ast
